@@ -208,7 +208,9 @@ public:
             Date st = step.start_date();
             Date end = step.end_date();
             Date test(st.year(), month, day);
-            if ((test >= st && test <= end))
+            Date test_end_year(end.year(), month, day);
+            if ((test >= st && test <= end)
+                || (test_end_year >= st && test_end_year <= end))
                 schedule.push_back(true);
             else
                 schedule.push_back(false);
